@@ -69,7 +69,7 @@ func buildRefcqlCatalogue(thorough bool) []*frameCase {
 	for _, v := range versions {
 		seen := map[string]bool{}
 		frame.Catalogue(v, frame.CatalogueOptions{}, func(e *frame.Entry) {
-			if seen[e.Class] {
+			if seen[e.Class] || (!thorough && !quickClass(e.Class)) {
 				return
 			}
 			enc, err := frame.Encode(e.Resp)
@@ -96,4 +96,22 @@ func buildRefcqlCatalogue(thorough bool) []*frameCase {
 	}
 	sort.SliceStable(out, func(i, j int) bool { return out[i].name < out[j].name })
 	return out
+}
+
+// quickClass selects the shape classes of the quick tier: every non-rows, non-prepared
+// class; rows and prepared classes only in their plainest flag combination (one per
+// column type tree / column count), since the flag and row-count variants of the same
+// tree differ only in parts the hand-made catalogue already varies.
+func quickClass(class string) bool {
+	switch {
+	case strings.HasPrefix(class, "rows/types/"):
+		return strings.HasSuffix(class, "/flags0/rows1")
+	case strings.HasPrefix(class, "rows/typed/"):
+		return strings.Contains(class, "/flags0/")
+	case strings.HasPrefix(class, "rows/envelopes/"):
+		return strings.HasSuffix(class, "/flags0") || strings.HasSuffix(class, "/flags7")
+	case strings.HasPrefix(class, "prepared/"):
+		return strings.Contains(class, "bglobal=true") && strings.Contains(class, "rglobal=true")
+	}
+	return true
 }
